@@ -328,3 +328,9 @@ Example c17_nonvacuous_flow : forall s, In s g_consumer_joins ->
               {| m_code_file := [107;46;100;108;108]; m_code_identifier := Some [53;97];
                  m_debug_file := Some [97;92;84;46;112;100;98]; m_debug_identifier := Some [48;49] |} KBinary = Some p.
 Proof. exact flow_nonvacuous. Qed.
+
+(* the string-free copy of the site list the extracted driver reads (it predicts what the filesystem probe
+   observes: which path each supplier returns and which files appear under the cache) is the site list *)
+Theorem c17_src_flow_table : g_flow_table = map flow_row g_consumer_joins.
+Proof. exact flow_table_is_the_site_list. Qed.
+Print Assumptions c17_src_flow_table.
